@@ -171,6 +171,8 @@ def check_invariants_method(prog, e, segs, fn, ty, inv, rep, keybase):
             r = ts.fold_events(e, s.state, s.state.events if not has_loops else s.events, place, init, init_empty=True)
             if ts.worse(r.state, req):
                 bad.append('%s is left %s (required: %s): %s' % (fname, ts.NAMES[r.state], ts.NAMES[req], ' -> '.join(r.why)))
+            if req == ts.S and any(str(w).split('(')[0].startswith('dedup') for w in r.why):
+                bad.append('%s is a multiset (repeated elements are kept) but is de-duplicated: %s' % (fname, ' -> '.join(r.why)))
             if nonempty:
                 # Option<Box<[T]>>: Some(list) must be non-empty: check the stored value
                 for ev in s.state.events:
@@ -245,6 +247,8 @@ def check_constructor(prog, fn, ty, allinv, rep, exempt):
                 r = ts.of_value(e, s.state, fv, s.state.facts)
                 if ts.worse(r.state, req):
                     bad.append('%s is built %s (required: %s): %s' % (fname, ts.NAMES[r.state], ts.NAMES[req], ' -> '.join(r.why)))
+                if req == ts.S and any(str(w).split('(')[0].startswith('dedup') for w in r.why):
+                    bad.append('%s is a multiset (repeated elements are kept) but is de-duplicated: %s' % (fname, ' -> '.join(r.why)))
                 sm = ts.call_summary(e, fv)
                 if nonempty and sm is not None:
                     if sm.some_empty:
